@@ -225,7 +225,7 @@ def parser_model_check(ctx, cases, harness=None, c_replies=None, suite=None):
             bad('c-rejects-model-accepts', 'C parser reports error %s at %s, the model success' % (f[2], f[3])); continue
         if f[0] == 'ERR':
             stats['reject'] += 1
-            if f[2] == m[1] == '13' and int(f[3]) >= int(m[2]) and (int(f[3]) - int(m[2])) % 8 == 0 and int(f[3]) - int(m[2]) <= 24:
+            if f[2] == m[1] == '13' and int(f[3]) > int(m[2]) and (int(f[3]) - int(m[2])) % 8 == 0 and int(f[3]) - int(m[2]) <= 24:
                 # unknown_symbol: the generated trie reports the position it has advanced to (buf += 8 per matched 8-byte window of a
                 # declared longer name); the model, which abstracts the trie as exact lookup, reports the start of the symbol
                 stats['unknown_symbol_loc_in_name'] = stats.get('unknown_symbol_loc_in_name', 0) + 1
@@ -241,3 +241,27 @@ def parser_model_check(ctx, cases, harness=None, c_replies=None, suite=None):
             elif m[2] != f[5]: bad('bytes-differ', 'finished buffer differs: C %s..., model %s...' % (f[5][:64], m[2][:64]))
             if m[3] != 'D1': bad('value-differs', 'Spec.decode_root of the C-built buffer is not the value tree of the model')
     return mism, stats
+
+
+def c04_hook(ctx, harness, cases, check_theorems=True, own_suite_docs=150):
+    """Entry point for checks/c04.py: re-check Properties_C04b.vo, run the parser-model tie on the caller's cases whose root lies in the
+    fragment (roots 'Leaf', 'Rec', 'Req'; harness = the caller's json_scan_diff harness) and on documents of gen/c04b_schema.fbs
+    (own harness, built here); every mismatch becomes ctx.violation('corr:parser-model:<key>', ...).  Returns the statistics."""
+    from . import c04b_selftest as S
+    out = {}
+    if check_theorems:
+        if not ctx.check_theorems('Properties_C04b', extra_targets=['Extract/Extract_jsonparser.vo']):
+            ctx.broken_obligation('Properties_C04b.vo', getattr(ctx, 'broken', {}))
+    maxlvl = parse_max_levels() or 100
+    cs = [tuple(c) for c in cases if c[0] in SUITE_C04.roots] + S.deep_cases(maxlvl)
+    runs = [(SUITE_C04, harness, cs)]
+    if own_suite_docs:
+        runs.append((SUITE_B4, SUITE_B4.build_harness(ctx), S.b4_hand() + S.b4_deep(maxlvl) + S.gdoc_cases(ctx.rng, SUITE_B4, own_suite_docs)))
+    for suite, H, cs in runs:
+        mism, stats = parser_model_check(ctx, cs, harness=H, suite=suite)
+        out[suite.name] = stats
+        for c in cs:
+            ctx.count(b'parser-model:' + suite.name.encode() + bytes([c[1] & 255]) + c[3], klass='parser-model:' + (c[4] if len(c) > 4 else 'case'))
+        for m in mism:
+            ctx.violation('corr:parser-model:' + m['key'], m['what'], m['replay'])
+    return out
